@@ -367,6 +367,9 @@ def fill_query_params(query, params):
         if isinstance(node, ast.Parameter):
             value = params.pop(0)
             # the value takes the place of the placeholder, including its alias (SELECT ? AS k)
+            if value is None:
+                # SQL NULL, as if NULL had been written inline (Constant(None) prints the python word None)
+                return ast.NullConstant(alias=node.alias)
             return ast.Constant(value, alias=node.alias)
 
     # put parameters into query
